@@ -119,10 +119,28 @@ def in_domain(f):
     return True, None
 
 
+def _variable_ttx():
+    """[(name, bytes)] of the corpus TTX dumps that contain an fvar table, compiled with the
+    tree under test by the same function corpus.compiled_ttx() uses"""
+    import multiprocessing
+
+    paths = []
+    for path in corpus.ttx_files():
+        with open(path, "rb") as fh:
+            if b"<fvar" in fh.read():
+                paths.append(path)
+    ctx = multiprocessing.get_context("fork")
+    with ctx.Pool(min(16, max(1, len(paths)))) as pool:
+        res = pool.map(corpus._compile_ttx, paths, chunksize=1)
+    ok = [(n, d) for n, d, err in res if d is not None]
+    ok.sort(key=lambda t: (len(t[1]), t[0]))
+    return ok
+
+
 def load():
     """-> (fonts {key: bytes}, excluded [(name, reason)])"""
     fonts, excluded = {}, []
-    for name, data in corpus.compiled_ttx():
+    for name, data in _variable_ttx():
         f = TTFont(io.BytesIO(data), lazy=True)
         if "fvar" not in f:
             continue
